@@ -39,8 +39,11 @@ type Contract struct {
 	Guards     []guardSpec
 	Bumps      []Bump   // ghost counters increased at every call (definition of the ghost, not an obligation)
 	Emits      []Clause // ghost events appended to the trace, in order (assumed contracts of hook interfaces)
-	File       string
-	Line       int
+	// Names binds the contract's own names to the parameters by position (receiver excluded, "_" skips one): the
+	// clauses then do not depend on what the code calls its parameters (a renamed or blanked parameter).
+	Names []string
+	File  string
+	Line  int
 }
 
 // Define is a contract-level macro: define name(a, b) = expr
@@ -74,7 +77,7 @@ func NewContractSet() *ContractSet {
 var labelRe = regexp.MustCompile(`^(\w+)\[([^\]]+)\]\s*(.*)$`)
 
 var clauseKinds = map[string]bool{"requires": true, "ensures": true, "invariant": true, "nopanic": true,
-	"modifies": true, "flag": true, "before": true, "emits": true, "bumps": true, "step": true, "hyp": true, "goal": true, "cover": true, "loopmodifies": true}
+	"modifies": true, "flag": true, "before": true, "emits": true, "bumps": true, "step": true, "hyp": true, "goal": true, "cover": true, "loopmodifies": true, "names": true}
 
 // LoadContractFile parses one contract file; pkgPath is the import path its designators are relative to
 // ("" for library files that use fully qualified designators).
@@ -134,6 +137,11 @@ func (cs *ContractSet) LoadContractFile(path, pkgPath string) error {
 				cur.LoopMods[curLoop] = append(cur.LoopMods[curLoop], splitTop(p.text, ',')...)
 			} else {
 				cur.Modifies = append(cur.Modifies, splitTop(p.text, ',')...)
+			}
+			return nil
+		case "names":
+			for _, n := range strings.Split(p.text, ",") {
+				cur.Names = append(cur.Names, strings.TrimSpace(n))
 			}
 			return nil
 		case "flag":
